@@ -101,6 +101,8 @@ func (w *World) Snapshot() *Snapshot {
 	s.SpotOrders = a.TradeshieldKeeper.GetAllPendingSpotOrder(ctx)
 	s.PerpOrders = a.TradeshieldKeeper.GetAllPendingPerpetualOrder(ctx)
 	s.Prices = a.OracleKeeper.GetAllPrice(ctx)
+	s.SwapInQ = len(a.AmmKeeper.GetAllSwapExactAmountInRequests(ctx))
+	s.SwapOutQ = len(a.AmmKeeper.GetAllSwapExactAmountOutRequests(ctx))
 	return s
 }
 
